@@ -120,6 +120,13 @@ Fixpoint insert_str (x : str) (l : list str) : list str :=
   end.
 Definition sort_strs (l : list str) : list str := fold_right insert_str [] l.
 
+(** itertools.product of the symbol sets, as words *)
+Fixpoint str_product (sets : list (list Z)) : list str :=
+  match sets with
+  | [] => [[]]
+  | s :: r => flat_map (fun c => map (cons c) (str_product r)) s
+  end.
+
 (* ------------------------------------------------------------------ new_alphabet: k-mer indices *)
 
 (** [CharAlphabet.to_indices(bytes)]: bytes.translate with a table sending the i-th
@@ -338,6 +345,11 @@ Definition sixframes_old (aa : str) (m : moltype) (s : str) : res (list str) :=
   bind (mapM (translate_old aa s) [0; 1; 2]) (fun plus =>
   bind (mapM (translate_old aa reverse) [0; 1; 2]) (fun minus => Ok (plus ++ minus))).
 
+(** [cogent3.app.translate.translate_frames(seq, gc=, allow_rc=)]: the old object's six frames,
+    the first three unless [allow_rc] *)
+Definition translate_frames (aa : str) (m : moltype) (s : str) (allow_rc : bool) : res (list str) :=
+  bind (sixframes_old aa m s) (fun l => Ok (if allow_rc then l else firstn 3 l)).
+
 (* ------------------------------------------------------------------ sequences: stop handling *)
 
 (** Two findings of this property live in this part of the code; the model carries one flag
@@ -403,15 +415,66 @@ Definition seq_get_translation_new (aa : str) (s : str) (incomplete_ok include_s
     else if negb incomplete_ok && (has_char ch_gap pep || has_char ch_X pep) then Err E_Alpha
     else Ok pep).
 
-(** one codon of the loop of old [Sequence.get_translation]; codons with IUPAC ambiguity
-    symbols are outside the model *)
+(** [MolType._what_ambiguity(motifs)] on an ambiguity dictionary in dict order: the first smallest
+    set that holds every motif; the missing symbol when none does *)
+Definition what_ambiguity_tbl (amb : list (Z * list Z)) (alpha_len : Z) (motifs : list Z) : Z :=
+  snd (fold_left
+         (fun (st : Z * Z) (kv : Z * list Z) =>
+            let '(most_specific, result) := st in
+            if subset motifs (snd kv) && (zlen (snd kv) <? most_specific)
+            then (zlen (snd kv), fst kv) else st)
+         amb (alpha_len + 1, ch_miss)).
+
+(** the protein moltype the result is encoded with: "protein_with_stop" if include_stop else "protein" *)
+Definition protein_what_ambiguity (include_stop : bool) (trans : list Z) : Z :=
+  if include_stop then what_ambiguity_tbl prot_stop_ambig_old (zlen prot_stop_alpha_old) trans
+  else what_ambiguity_tbl prot_ambig_old (zlen prot_alpha_old) trans.
+
+(** the [codons] dictionary of an old GeneticCode object *)
+Definition codon_dict (aa : str) : list (str * Z) := combine (product3 old_bases) aa.
+
+(** membership in [gc.get_alphabet(include_stop=include_stop).with_gap_motif()]: the sense codons,
+    the stop codons too if include_stop, and "---" *)
+Definition in_codon_alphabet (dict : list (str * Z)) (include_stop : bool) (u : str) : bool :=
+  str_eqb u gap_word ||
+  match assoc_str u dict with
+  | Some a => include_stop || negb (a =? ch_star)
+  | None => false
+  end.
+
+(** one codon of the loop of old [Sequence.get_translation] (DNA sequences):
+    resolve_ambiguity(codon, alphabet=codon_alphabet) -- the codon itself if it is in the alphabet,
+    otherwise every expansion of its symbols through DNA.ambiguities that is in the alphabet,
+    AlphabetError if a symbol is unknown or nothing is left (then, with incomplete_ok and a "-" in
+    the codon, the codon itself) --, the amino acid gc[codon] of every resolution (stop codons
+    skipped unless include_stop), and the protein symbol that stands for all of them *)
 Definition old_codon (aa : str) (incomplete_ok include_stop : bool) (w : str) : res Z :=
-  if forallb (fun c => memZ c (ch_U :: old_bases)) w then
-    bind (getitem Old aa w) (fun a =>
-      if (a =? ch_star) && negb include_stop then Err E_Alpha else Ok a)
-  else if str_eqb w gap_word then Ok ch_gap
-  else if has_gap w then (if incomplete_ok then Ok ch_miss else Err E_Alpha)
-  else Err E_Unmodelled.
+  let dict := codon_dict aa in
+  let resolved : res (list str) :=
+    if in_codon_alphabet dict include_stop w then Ok [w]
+    else match mapM (fun c => match assocZ c dna_ambig_old with Some s => Ok s | None => Err E_Alpha end) w with
+         | Err e => Err e
+         | Ok sets => match filter (in_codon_alphabet dict include_stop) (str_product sets) with
+                      | [] => Err E_Alpha
+                      | l => Ok l
+                      end
+         end in
+  let resolved : res (list str) :=
+    match resolved with
+    | Ok l => Ok l
+    | Err e => if negb incomplete_ok || negb (has_gap w) then Err e else Ok [w]
+    end in
+  bind resolved (fun l =>
+  bind (mapM (fun u : str =>
+                if str_eqb u gap_word then Ok [ch_gap]
+                else if has_gap u then (if incomplete_ok then Ok [ch_miss] else Err E_Alpha)
+                else (* gc[u]: upper-cased, U -> T, "X" when unknown *)
+                  let a := match assoc_str (codon_key u) dict with Some a => a | None => ch_X end in
+                  if (a =? ch_star) && negb include_stop then Ok [] else Ok [a]) l) (fun parts =>
+  match concat parts with
+  | [] => Err E_Alpha
+  | trans => Ok (protein_what_ambiguity include_stop trans)
+  end)).
 
 (** old [Sequence.get_translation] *)
 Definition seq_get_translation_old (aa : str) (s : str) (incomplete_ok include_stop trim_stop : bool) : res str :=
@@ -488,12 +551,6 @@ Definition ambig_dict (v : impl) (m : moltype) : list (Z * list Z) :=
       let base := match m with DNA => dna_ambig_new | RNA => rna_ambig_new end in
       let al := alpha_of New m in
       map strip (base ++ [(ch_gap, [ch_gap]); (ch_miss, al ++ [ch_gap])] ++ map (fun c => (c, [c])) al)
-  end.
-
-Fixpoint str_product (sets : list (list Z)) : list str :=
-  match sets with
-  | [] => [[]]
-  | s :: r => flat_map (fun c => map (cons c) (str_product r)) s
   end.
 
 (** [MolType.resolve_ambiguity(motif)] with the default arguments; the result is a set of
